@@ -260,8 +260,9 @@ func runC09(res *Result, d *Driver, tier string, seed uint64) {
 			if !o.exited {
 				follower = fmt.Sprintf("raise %d;exit 99", o.n)
 			}
-			r1, _ := env.runProbe(RunSpec{Script: leader}, fi%2 == 0)
-			r2, _ := env.runProbe(RunSpec{Script: follower}, false)
+			// the host does not read the leader's output: nothing makes it wait for the children that were left behind
+			r1, _ := env.runProbe(RunSpec{Script: leader, NoCapture: true}, fi%2 == 0)
+			r2, _ := env.runProbe(RunSpec{Script: follower, NoCapture: true}, false)
 			check(fmt.Sprintf("container-leaves-%d-children", nkids), outcome{true, 3}, r1)
 			check(fmt.Sprintf("container-right-after-a-run-that-left-%d-children", nkids), o, r2)
 		}
